@@ -150,8 +150,10 @@ def big_float_const(ts: typing.List[dict]) -> bool:
 # known findings: trigger predicates, remedies, signatures (entries live in known_findings.d/C06.json)
 # ---------------------------------------------------------------------------------------------
 class Job:
-    def __init__(self, ci, cfg, variant, rel, out, tinfo, clos):
+    def __init__(self, ci, cfg, variant, rel, out, tinfo, clos, types=None, chains=None):
         self.ci, self.cfg, self.variant, self.rel, self.out, self.t, self.clos = ci, cfg, variant, rel, out, tinfo, clos
+        self.types = types or {}          # tkey -> type dump (whole case)
+        self.chains = chains or {}        # tkey -> namespace chain the real C++ header opens (stropped; + the service's own namespace)
         self.rc = 0
         self.output = ''
         self.cmd: typing.List[str] = []
@@ -207,6 +209,9 @@ FINDINGS: typing.Dict[str, dict] = {
         trigger=lambda j: (j.lang == 'cpp' or (j.lang == 'c' and j.variant == 'cxx14')) and (
             bool({'size_t', 'std'} & names_of(j.clos)) or ('allocator_type' in names_of(j.clos) and (j.cfg['std'] or '').endswith('pmr'))),
         signature=r'.'),      # diagnostics of these clashes vary (allocator traits, template lookup): any first diagnostic; the trigger is by name
+    'F-C06-CPP-NS-SHADOW': dict(
+        trigger=lambda j: ns_shadow(j),
+        signature=r'is not a member of|does not name a type|has not been declared|is not a (class|namespace)'),
     'F-C06-PY-MODULE-SHADOW': dict(
         trigger=lambda j: j.lang == 'py' and bool({t['ns'][0] for t in j.clos} & set(getattr(sys, 'stdlib_module_names', ()))),
         signature=r'.'),
@@ -240,6 +245,34 @@ def macro_names(j: Job) -> typing.Set[str]:
         macros = set(re.findall(r'^#define (\w+)', p.stdout, flags=re.M))
         j._macros = {n for n in names_of(j.clos) if n in macros}
     return j._macros
+
+
+def ns_shadow(j: Job) -> bool:
+    """C++ unqualified lookup of the FIRST component of a reference `r::...::T` emitted inside namespace chain C finds, before the global
+    root `r`, a namespace `r` declared in an enclosing non-global scope (a deeper namespace component, or a service's own namespace,
+    named like the root) -- decided on the namespace chains the real headers of the translation unit open"""
+    if j.lang != 'cpp':
+        return False
+    for d in j.clos:
+        kd = tkey(d)
+        chain = j.chains.get(kd)
+        if not chain:
+            continue
+        declared = set()
+        for x in closure(j.types, kd):
+            ch = j.chains.get(tkey(x)) or []
+            for i in range(1, len(ch) + 1):
+                declared.add(tuple(ch[:i]))
+        roots = set()
+        for a in d['attrs']:
+            r = comp_refs(a)
+            if r and j.chains.get(r):
+                roots.add(j.chains[r][0])
+        for r in roots:
+            for m in range(len(chain), 0, -1):
+                if tuple(chain[:m]) + (r,) in declared:
+                    return True
+    return False
 
 
 _clash_cache: typing.Dict[typing.Tuple[str, str], bool] = {}
@@ -325,13 +358,18 @@ def make_jobs(ci: int, res: dict, cfgs: typing.List[dict]) -> typing.List[Job]:
         r = res['runs'].get(cfg_key(cfg))
         if not r or not r['ok']:
             continue
+        chains = {}
+        for rel, info in r['files'].items():
+            k = header_type(types, info)
+            if k and cfg['lang'] == 'cpp':
+                chains[k] = list(info.get('ns_open') or [])
         for rel, info in sorted(r['files'].items()):
             if rel.startswith('nunavut/') or rel == 'nunavut_support.py':
                 continue
             k = header_type(types, info)
             clos = closure(types, k) if k else list(types.values())
             for variant in (['c11', 'cxx14'] if cfg['lang'] == 'c' else ['own']):
-                jobs.append(Job(ci, cfg, variant, rel, r['out'], types.get(k) if k else None, clos))
+                jobs.append(Job(ci, cfg, variant, rel, r['out'], types.get(k) if k else None, clos, types, chains))
     return jobs
 
 
